@@ -45,7 +45,8 @@ def _layered(layers, a, weighted):
 
 def _mat(case):
     if "layers" in case:
-        return _layered(case["layers"], case["a"], case.get("weighted", False))
+        M = _layered(case["layers"], case["a"], case.get("weighted", False))
+        return M.astype(case["dtype8"]) if case.get("dtype8") else M
     if "W" in case:
         from props.gcommon import relayout
         return relayout(np.array([[float(fr(x)) for x in row] for row in case["W"]], dtype=float))
@@ -201,8 +202,13 @@ def _check_graph(case, A, prefix=""):
     if "sep" in what:
         for (Sset, Aset, Bset) in _triples(case, p):
             Sset, Aset, Bset = set(Sset), set(Aset), set(Bset)
-            o = lib(utils.separates, npints(set(Sset), salt + len(Sset), True), npints(set(Aset), salt + len(Aset) + 1, True),
-                    npints(set(Bset), salt + 2 * len(Bset) + 2, True), A)       # sets or frozensets of ints / numpy ints
+            Sarg, Aarg, Barg = (npints(set(Sset), salt + len(Sset), True), npints(set(Aset), salt + len(Aset) + 1, True),
+                                npints(set(Bset), salt + 2 * len(Bset) + 2, True))       # sets or frozensets of ints / numpy ints
+            o = lib(utils.separates, Sarg, Aarg, Barg, A)
+            if [{int(v) for v in x} for x in (Sarg, Aarg, Barg)] != [Sset, Aset, Bset]:
+                raise Violation("argument_set_modified", "separates changed a set it was given: S=%r A=%r B=%r (were %r %r %r); %s"
+                                % (sorted(int(v) for v in Sarg), sorted(int(v) for v in Aarg), sorted(int(v) for v in Barg),
+                                   sorted(Sset), sorted(Aset), sorted(Bset), ctx))
             if (Sset & Aset) or (Sset & Bset) or (Aset & Bset):
                 must_raise(o, ValueError, "separates(overlapping sets)")
                 lab.append("sep_overlap")
@@ -332,7 +338,7 @@ def plan(tier, seed):
     shards = 16 if tier == "quick" else 64
     for k in range(shards):
         jobs.append({"sub": "hyp", "seed": seed, "shard": k, "n": max(1, n // shards), "cost": 8})
-    for k, layers in enumerate([[3, 150, 2], [1, 200, 1], [2, 129, 3, 2], [130, 2]] + ([[4, 260, 2], [2, 140, 140, 1]] if tier == "thorough" else [])):
+    for k, layers in enumerate([[3, 150, 2], [1, 200, 1], [2, 129, 3, 2], [130, 2], [1, 256, 1], [2, 512, 1]] + ([[4, 260, 2], [2, 140, 140, 1]] if tier == "thorough" else [])):
         jobs.append({"sub": "layered", "seed": seed, "layers": layers, "index": k, "cost": 15})
     if tier == "thorough":
         for k in range(64):
@@ -375,8 +381,10 @@ def run(job):
         a = next(x for x in range(7 + job["seed"] % 5, 7 + job["seed"] % 5 + 4 * p) if math.gcd(x, p) == 1)
         lab = [(a * i + 3) % p for i in range(p)]
         ends = [lab[i] for i in list(range(min(3, layers[0]))) + list(range(p - min(3, layers[-1]), p))] + [lab[layers[0]]]
-        for weighted in (False, True):
-            case = {"sub": "layered", "layers": layers, "a": a, "weighted": weighted, "what": ["reach", "basic"], "nodes": sorted(set(ends))}
+        for weighted in (False, True, "uint8", "int8"):
+            case = {"sub": "layered", "layers": layers, "a": a, "weighted": weighted is True, "what": ["reach", "basic"], "nodes": sorted(set(ends))}
+            if isinstance(weighted, str):
+                case["dtype8"] = weighted           # 0/1 matrices are often kept in 8 bits: counts of 256 wrap to 0 there
             try:
                 labs = check(case)
                 acc.record(case, labs + ["layered", "fan_ge_128"], True, by_construction=True)
